@@ -23,6 +23,10 @@ def plan(tier, seed):
         specs.append(dict(name="synth-%d" % p, mode="interp", what="synth", n=n, seed=[seed, 161, p]))
     if tier == "thorough":
         specs += ec.fixture_specs()
+    # the same work in an interpreter started with -O (assert statements compiled away)
+    byname = {sp["name"]: sp for sp in specs}
+    if 'synth-0' in byname:
+        specs.append(common.under_O(byname['synth-0'], **{}))
     return specs
 
 
